@@ -49,6 +49,7 @@ type childOut struct {
 	current string
 	skip    int
 	n       int
+	recent  []string // the last few case lines (a goroutine the library started may crash late)
 }
 
 func childFromEnv() (*childOut, string, error) {
@@ -75,7 +76,17 @@ func (c *ctx) begin(line string) bool {
 	if idx < c.child.skip {
 		return false
 	}
-	_ = os.WriteFile(c.child.current, []byte(strconv.Itoa(idx)+"\t"+line+"\n"), 0o644)
+	c.child.recent = append(c.child.recent, line)
+	if len(c.child.recent) > 4 {
+		c.child.recent = c.child.recent[1:]
+	}
+	// first line: the running case; following lines: the cases before it, newest first
+	var b strings.Builder
+	b.WriteString(strconv.Itoa(idx) + "\t" + line + "\n")
+	for i := len(c.child.recent) - 2; i >= 0; i-- {
+		b.WriteString("prev\t" + c.child.recent[i] + "\n")
+	}
+	_ = os.WriteFile(c.child.current, []byte(b.String()), 0o644)
 	return true
 }
 
@@ -142,13 +153,32 @@ func (c *ctx) runChild(group string, extraEnv ...string) error {
 			return nil
 		}
 		cur, _ := os.ReadFile(current)
-		parts := strings.SplitN(strings.TrimSpace(string(cur)), "\t", 2)
+		curLines := strings.Split(strings.TrimSpace(string(cur)), "\n")
+		parts := strings.SplitN(curLines[0], "\t", 2)
 		if len(parts) != 2 {
 			return fmt.Errorf("child %s failed before its first case: %v: %s", group, err, stderr.String())
 		}
 		idx, _ := strconv.Atoi(parts[0])
 		line := parts[1]
 		out := stderr.String()
+		// A goroutine the library started may die after its case has ended: find the culprit
+		// among the last cases by running each alone (with a settle time before the child
+		// exits), oldest first.
+		if group != "replay" && group != "attrib" {
+			var cands []string
+			for i := len(curLines) - 1; i >= 1; i-- {
+				if p := strings.SplitN(curLines[i], "\t", 2); len(p) == 2 {
+					cands = append(cands, p[1])
+				}
+			}
+			cands = append(cands, line)
+			for _, cand := range cands {
+				if crashed, o2 := c.crashesAlone(cand); crashed {
+					line, out = cand, o2
+					break
+				}
+			}
+		}
 		fn, file, ln := panicLocation(out, c.repo)
 		msg := "child process died: " + err.Error()
 		if i := strings.Index(out, "panic: "); i >= 0 {
@@ -168,6 +198,28 @@ func (c *ctx) runChild(group string, extraEnv ...string) error {
 			return nil
 		}
 	}
+}
+
+// crashesAlone runs one case line in a child of its own and reports whether that child died.
+func (c *ctx) crashesAlone(line string) (bool, string) {
+	dir := filepath.Join(c.r.Dir, "child-attrib")
+	_ = os.MkdirAll(dir, 0o755)
+	rf := filepath.Join(dir, "replay.json")
+	b, _ := json.Marshal(map[string][]string{"case": {c.r.Prop + " " + line}})
+	if os.WriteFile(rf, b, 0o644) != nil {
+		return false, ""
+	}
+	cx, cancel := context.WithTimeout(context.Background(), 2*time.Minute)
+	defer cancel()
+	cmd := exec.CommandContext(cx, os.Args[0], "run", c.r.Prop, "-tier", c.r.Tier, "-seed", strconv.FormatUint(c.r.Seed, 10),
+		"-work", filepath.Join(dir, "w"))
+	cmd.Env = append(os.Environ(), "C09_CHILD=replay", "C09_REPLAYFILE="+rf, "C09_RESULTS="+filepath.Join(dir, "results.jsonl"),
+		"C09_CURRENT="+filepath.Join(dir, "current.txt"), "C09_SKIP=0")
+	var stderr tailBuffer
+	cmd.Stderr = &stderr
+	cmd.Stdout = &stderr
+	err := cmd.Run()
+	return err != nil && cx.Err() == nil, stderr.String()
 }
 
 // tailBuffer keeps the first 64 KiB written to it (a Go crash prints the panic first).
